@@ -58,6 +58,12 @@ def impl_findings(after_use=False):
         exp = sam_len(v) if v < 256 else None
         if (kind == "ok" and x != exp) or (kind == "exn" and (exp is not None or x != "OpcodeException")):
             out.append(dict(kind="cdb-length", id="cdb-length:%d" % v, opcode=v, impl=[kind, x], sam=exp))
+    for cname, v, kind, x in r.get("class_cdb", []):
+        exp = sam_len(v) if 0 <= v < 256 else None
+        if (kind == "ok" and x != exp) or (kind == "exn" and (exp is not None or x != "OpcodeException")):
+            out.append(dict(kind="class-cdb-length", id="class-cdb-length:%s:%d" % (cname, v), command_class=cname, opcode=v, impl=[kind, x], sam=exp,
+                            what="%s.marshall_cdb for operation code %02Xh after the class built an ordinary command: %s, SAM prescribes %s" % (
+                                cname, v & 0xFF, [kind, x], exp if exp is not None else "refusal (OpcodeException)")))
     return out
 
 
